@@ -624,11 +624,11 @@ def _check_cache_script(name):
             p1 = {}
             comp = CompositeActiveTagValueProvider([p1])
             matcher = ActiveTagMatcher(comp)
-            got = [comp.get("a"), matcher.should_exclude_with(["use.with_a=y"])]
+            got = [comp.get("a"), comp.get("a", "D")]
             p1["a"] = "x"
             got += [comp.get("a"), matcher.should_exclude_with(["use.with_a=y"]),
                     matcher.should_exclude_with(["use.with_a=x"])]
-            want = [None, False, "x", True, False]
+            want = [None, "D", "x", True, False]
         elif name == "lazy-reevaluated":
             counter = []
 
@@ -655,6 +655,9 @@ def run_provider_get(tier, rng):
         for category in ("a", "b", "zz"):
             for default_name in sorted(_DEFAULTS):
                 yield _check_provider_get(kind, category, default_name)
+
+
+def run_provider_cache(tier, rng):
     for name in CACHE_SCRIPTS:
         yield _check_cache_script(name)
 
@@ -738,6 +741,102 @@ def replay_composite(case):
 
 
 # =============================================================================
+# CHECK 7: the value providers shipped with behave (behave/active_tag/python*.py)
+# =============================================================================
+def _shipped_spec():
+    """category -> (kind, current) computed from the interpreter, not from behave."""
+    import platform
+    import sys
+    ver = tuple(sys.version_info[:2])
+    async_fn = ver >= (3, 5)
+    coro_deco = (3, 4) <= ver < (3, 10)
+    python = {
+        "python2": ("bool", sys.version_info[0] == 2),
+        "python3": ("bool", sys.version_info[0] == 3),
+        "python.version": ("str", "%d.%d" % ver),
+        "python.min_version": ("version_ge", ver),
+        "python.max_version": ("version_le", ver),
+        "os": ("str", sys.platform.lower()),
+        "platform": ("str", sys.platform),
+        "python.implementation": ("str", platform.python_implementation().lower()),
+        "pypy": ("bool", "__pypy__" in sys.modules),
+    }
+    feature = {
+        "python.feature.coroutine": ("bool", async_fn or coro_deco),
+        "python.feature.asyncio.coroutine_decorator": ("bool", coro_deco),
+        "python.feature.async_function": ("bool", async_fn),
+        "python.feature.async_keyword": ("bool", async_fn),
+        "python_has_coroutine": ("bool", async_fn or coro_deco),
+        "python_has_asyncio.coroutine_decorator": ("bool", coro_deco),
+        "python_has_async_function": ("bool", async_fn),
+        "python_has_async_keyword": ("bool", async_fn),
+    }
+    return {"python": python, "python_feature": feature}
+
+
+def _spec_version(text):
+    parts = text.split(".")
+    numbers = [spec_int(p) if p[:1] not in ("+", "-") else None for p in parts]
+    return None if any(n is None for n in numbers) else tuple(numbers)
+
+
+def _shipped_match(kind, current, tag_value):
+    if kind == "bool":
+        flag = spec_bool(tag_value)
+        return False if flag is None else current == flag
+    if kind == "str":
+        return current == tag_value
+    version = _spec_version(tag_value)
+    if version is None:
+        return False
+    return current >= version if kind == "version_ge" else current <= version
+
+
+def _shipped_values(kind, current):
+    if kind == "bool":
+        return ["true", "yes", "on", "false", "no", "off", "maybe", ""]
+    if kind == "str":
+        return [current, current.upper() + "x", ""]
+    major, minor = current
+    return ["%d.%d" % (major, minor), "%d.%d" % (major, minor + 1), "%d.%d" % (major, max(minor - 1, 0)),
+            "2.7", "%d.0" % (major + 1), "%d.x" % major, "", "abc"]
+
+
+def _check_shipped_case(module, tags):
+    case = {"module": module, "tags": list(tags)}
+    table = _shipped_spec()[module]
+    if module == "python":
+        from behave.active_tag.python import ACTIVE_TAG_VALUE_PROVIDER as provider
+    else:
+        from behave.active_tag.python_feature import ACTIVE_TAG_VALUE_PROVIDER as provider
+    if sorted(provider.keys()) != sorted(table):
+        return case, False, "categories of the shipped provider %r; spec table %r" % (sorted(provider), sorted(table))
+    expected = spec_exclude(tags, lambda c: (table[c] if c in table else _MISSING),
+                            lambda c, v, t: _shipped_match(v[0], v[1], t))
+    ok, detail = _verdict(_observe(ActiveTagMatcher(provider), tags), expected)
+    return case, ok, detail
+
+
+def run_shipped(tier, rng):
+    for module, table in sorted(_shipped_spec().items()):
+        for category in sorted(table):
+            kind, current = table[category]
+            universe = ["%s.with_%s=%s" % (p, category, v) for p in ("use", "not")
+                        for v in _shipped_values(kind, current)]
+            for seq in _sequences(universe, 2):
+                if seq:
+                    yield _check_shipped_case(module, seq)
+        yield _check_shipped_case(module, [])
+        first, second = sorted(table)[0], sorted(table)[-1]
+        for tags in (["use.with_%s=zz" % first, "not.with_%s=zz" % second], ["use.with_unknown.category=1"]):
+            yield _check_shipped_case(module, tags)
+
+
+def replay_shipped(case):
+    return _check_shipped_case(case["module"], case["tags"])
+
+
+# =============================================================================
 CHECKS = [
     BoundedCheck(
         "tag-schema",
@@ -803,14 +902,21 @@ CHECKS = [
         bound={
             "quick": "9 provider shapes (dict, ActiveTagValueProvider eager/lazy, CompositeActiveTagValueProvider "
                      "over 0..2 dict/ATVP/nested members) x get(category in {a,b,unknown}, default in {None,'D',"
-                     "the Unknown sentinel used by ActiveTagMatcher}) = 81; 6 cache scripts",
-            "thorough": "same as quick (87 cases)",
+                     "the Unknown sentinel used by ActiveTagMatcher}) = 81",
+            "thorough": "same as quick (81 cases)",
         },
         run=run_provider_get, replay=replay_providers,
-        contract="value-provider protocol: get(category, default) == value of the first provider that knows the "
-                 "category, else `default` itself; a discovered category is cached (later provider changes "
-                 "invisible, providers not asked again), unknown ones are not; callables are re-evaluated on "
-                 "every access"),
+        contract="value-provider protocol (ActiveTagMatcher docstring): get(category, default) == value of the "
+                 "first provider that knows the category, else `default` itself"),
+    BoundedCheck(
+        "composite-provider-cache",
+        bound={"quick": "6 scripted histories over CompositeActiveTagValueProvider: first provider wins over 3 "
+                        "providers; cached after a later provider gains/changes the category; unknown then added; "
+                        "lazy callable re-evaluated; providers not asked again (counting provider)",
+               "thorough": "same as quick"},
+        run=run_provider_cache, replay=replay_providers,
+        contract="a discovered category is cached (later provider changes invisible, providers not asked again), "
+                 "unknown ones are not cached; callables are re-evaluated on every access"),
     BoundedCheck(
         "value-provider-matcher",
         bound={
@@ -822,6 +928,17 @@ CHECKS = [
         contract="ActiveTagMatcher(provider) over any provider shape decides as spec_exclude over the effective "
                  "mapping (first provider that knows the category wins; unknown categories never exclude unless "
                  "ignore_unknown_categories=False and the tag is positive)"),
+    BoundedCheck(
+        "shipped-value-providers",
+        bound={"quick": "behave.active_tag.python (9 categories) and .python_feature (8 categories): per category "
+                        "all sequences of <= 2 tags over {use,not} x 3..8 tag values (truth strings and garbage; "
+                        "current/next/previous/other versions and malformed ones; current and other strings)",
+               "thorough": "same as quick"},
+        run=run_shipped, replay=replay_shipped,
+        contract="ActiveTagMatcher(ACTIVE_TAG_VALUE_PROVIDER) decides as spec_exclude with the current values taken "
+                 "from sys.version_info / sys.platform / platform.python_implementation(): booleans by truth "
+                 "strings, python.min_version by >=, python.max_version by <= on version tuples, malformed values "
+                 "never match"),
     BoundedCheck(
         "composite-matcher",
         bound={"quick": "all member lists of length <= 2 over 5 matchers (3 ActiveTagMatcher incl. one strict, 2 "
